@@ -187,6 +187,10 @@ func init() {
 		}
 		add("headers[universe-chain-"+itoa(n)+"]", Frame(wire.CmdHeaders, HeadersPayload(chain...)))
 	}
+	// NOT part of the well-framed alphabet (not in LetterNames): a framed headers message followed
+	// by the bare payload of a verifying headers message, which only means something to a node that
+	// keeps reading past a message it has already disposed of
+	Letters["headers[unknown]+unframed[bsv-split]"] = append(append([]byte{}, Frame(wire.CmdHeaders, HeadersPayload(UnknownHeader))...), HeadersPayload(BSVSplit)...)
 	add("notfound", Frame(wire.CmdNotFound, invPayload(wire.InvTypeTx, *tx0.TxHash())))
 	add("getheaders", Msg(wire.NewMsgGetHeaders()))
 	add("getdata", Frame(wire.CmdGetData, invPayload(wire.InvTypeTx, *tx0.TxHash())))
